@@ -1020,3 +1020,85 @@ B('f_c13_headers_through_star_mapping_as_list', ['C13'], 'R13.g',
 B('f_c13_headers_stored_into_star_mapping_as_list', ['C13'], 'R13.g',
   (E, _HE_POP, _HE_POP + "        response_kwargs = {}\n        response_kwargs['headers'] = [(k, v) for k, v in (headers or {}).items()]\n"),
   (E, _HE_KW, ''), (E, _HE_CT, _HE_CT_STAR))
+
+# ---- round g: the error handler in effect is the one wrapped, on every path that installs one ---------------------------
+_SEH_IF = '        if error_handler is None:\n            if self.debug:\n'
+_SEH_SET = '\n        self.error_handler = error_handler\n'
+_SEH_CRE = '        check_render_error(error_handler.render_error, self.resources)\n'
+_SEH_DEF = '            error_handler = deh_type()\n'
+# the wrapper is only applied on the "given" branch (else of the default selection)
+B('g_c13_wrap_only_when_given_else_branch', ['C13'], 'R13.b',
+  (A, _SEH_CRE + _SEH, _SEH_CRE),
+  (A, _SEH_DEF, _SEH_DEF + '        else:\n    ' + _SEH))
+# ... the default branch returns early, having installed its handler
+B('g_c13_default_branch_returns_before_wrap', ['C13'], 'R13.b',
+  (A, _SEH_DEF, _SEH_DEF + '            check_render_error(error_handler.render_error, self.resources)\n'
+                           '            self.error_handler = error_handler\n            return\n'))
+# ... skipped under the debug configuration ("the debugger page needs no wrapper")
+B('g_c13_wrap_skipped_in_debug', ['C13'], 'R13.b',
+  (A, _SEH, '        if not self.debug:\n    ' + _SEH))
+# ... applied before the default is chosen: what is wrapped is the argument (None), not the handler installed
+B('g_c13_wrap_before_default_selected', ['C13'], 'R13.b',
+  (A, _SEH_CRE + _SEH, _SEH_CRE),
+  (A, _SEH_IF, _SEH + _SEH_IF))
+# ... the wrapper of the handler being replaced
+B('g_c13_wraps_previous_handler', ['C13'], 'R13.b',
+  (A, _SEH, "        self._dispatch_wsgi = _safe_wrap_wsgi('error_handler', self.error_handler, self._dispatch_wsgi)\n"))
+# ... of the argument, while the installed one is a second local
+B('g_c13_wraps_argument_not_installed', ['C13'], 'R13.b',
+  (A, _SEH_DEF, '            handler = deh_type()\n        else:\n            handler = error_handler\n'),
+  (A, _SEH_CRE, '        check_render_error(handler.render_error, self.resources)\n'),
+  (A, _SEH_SET, '\n        self.error_handler = handler\n'))
+# equivalent spellings: installed first and read back; one wrapping store per branch; the handler under a second name
+T('g_c13_wrap_reads_back_installed_handler', ['C13'],
+  (A, _SEH + _SEH_SET, "        self.error_handler = error_handler\n"
+                       "        self._dispatch_wsgi = _safe_wrap_wsgi('error_handler', self.error_handler, self._dispatch_wsgi)\n"))
+T('g_c13_wrap_in_both_branches', ['C13'],
+  (A, _SEH_CRE + _SEH, _SEH_CRE),
+  (A, _SEH_DEF, _SEH_DEF + '    ' + _SEH + '        else:\n    ' + _SEH))
+T('g_c13_installed_handler_second_name', ['C13'],
+  (A, _SEH_DEF, '            handler = deh_type()\n        else:\n            handler = error_handler\n'),
+  (A, _SEH_CRE + _SEH, '        check_render_error(handler.render_error, self.resources)\n'
+                       "        self._dispatch_wsgi = _safe_wrap_wsgi('error_handler', handler, self._dispatch_wsgi)\n"),
+  (A, _SEH_SET, '\n        self.error_handler = handler\n'))
+
+# ---- round g: a body stored into a response made elsewhere keeps the old iterable's close() reachable -------------------
+_GZ_TODO = '            return resp  # TODO\n'
+_GZ_IMP = 'from .core import Middleware\n'
+_GZ_DATA = '        comp_content = gzip_bytes(resp.data, self.compress_level)\n'
+# the streamed branch re-wraps the iterable with a plain generator: close() ends the generator, not the file underneath
+B('g_c13_streamed_body_rewrapped_by_generator', ['C13'], 'R13.c',
+  (GZ, _GZ_TODO, '            resp.response = (chunk.upper() for chunk in resp.iter_encoded())\n            return resp\n'))
+# ... buffered with freeze(), which (in the pinned werkzeug) drops the old iterable without registering its close
+B('g_c13_streamed_body_frozen_then_replaced', ['C13'], 'R13.c',
+  (GZ, _GZ_TODO, "            resp.freeze()\n            resp.response = [gzip_bytes(b''.join(resp.response), self.compress_level)]\n"
+                 "            resp.content_encoding = 'gzip'\n            return resp\n"))
+# ... a HEAD short-cut that empties the body before anything has buffered it
+B('g_c13_body_emptied_for_head', ['C13'], 'R13.c',
+  (GZ, "        resp.vary.add('Accept-Encoding')\n",
+       "        resp.vary.add('Accept-Encoding')\n        if request.method == 'HEAD':\n            resp.response = []\n            return resp\n"))
+# ... the buffering read sits in a try whose handler goes on: on that path nothing was registered
+B('g_c13_buffering_read_may_be_skipped', ['C13'], 'R13.c',
+  (GZ, _GZ_DATA, "        try:\n            comp_content = gzip_bytes(resp.data, self.compress_level)\n"
+                 "        except RuntimeError:\n            comp_content = b''\n"),
+  (GZ, '        if len(comp_content) >= len(resp.data):\n            return resp\n', ''))
+# ... the close registered is that of the *new* iterable
+B('g_c13_registers_close_of_new_iterable', ['C13'], 'R13.c',
+  (GZ, _GZ_TODO, '            resp.response = (chunk.upper() for chunk in resp.iter_encoded())\n'
+                 '            resp.call_on_close(resp.response.close)\n            return resp\n'))
+# equivalent correct spellings of a re-wrapping streamed branch
+T('g_c13_streamed_rewrap_registers_old_close', ['C13'],
+  (GZ, _GZ_TODO, '            body = resp.response\n            resp.response = (chunk.upper() for chunk in resp.iter_encoded())\n'
+                 '            resp.call_on_close(body.close)\n            return resp\n'))
+T('g_c13_streamed_rewrap_registers_old_close_guarded', ['C13'],
+  (GZ, _GZ_TODO, "            close_body = getattr(resp.response, 'close', None)\n"
+                 '            resp.response = (chunk.upper() for chunk in resp.iter_encoded())\n'
+                 '            if close_body is not None:\n                resp.call_on_close(close_body)\n            return resp\n'))
+T('g_c13_streamed_rewrap_closing_iterator', ['C13'],
+  (GZ, _GZ_IMP, 'from werkzeug.wsgi import ClosingIterator\n' + _GZ_IMP),
+  (GZ, _GZ_TODO, '            body = resp.response\n'
+                 '            resp.response = ClosingIterator((chunk.upper() for chunk in resp.iter_encoded()), [body.close])\n            return resp\n'))
+T('g_c13_streamed_made_sequence_first', ['C13'],
+  (GZ, _GZ_TODO, '            resp.make_sequence()\n            resp.response = [chunk.upper() for chunk in resp.response]\n            return resp\n'))
+T('g_c13_buffered_read_through_get_data', ['C13'],
+  (GZ, _GZ_DATA, '        raw_content = resp.get_data()\n        comp_content = gzip_bytes(raw_content, self.compress_level)\n'))
